@@ -27,3 +27,20 @@ func VerifReleaseC08(t *Tree) {
 		c.Reset()
 	}
 }
+
+// VerifResetCachesC08 only resets the read cache of the disk layer(s) of a tree the checker is done
+// with WITHOUT Disable(): used for the old tree after a Journal + reload round trip (Disable would
+// mark the shared database "snapshot disabled" and, the generator having been stopped by Journal
+// already, would block on its abort channel). Access only.
+func VerifResetCachesC08(t *Tree) {
+	if t == nil {
+		return
+	}
+	t.lock.Lock()
+	defer t.lock.Unlock()
+	for _, l := range t.layers {
+		if dl, ok := l.(*diskLayer); ok && dl.cache != nil {
+			dl.cache.Reset()
+		}
+	}
+}
